@@ -4,6 +4,18 @@ import json, os
 V = os.path.dirname(os.path.dirname(os.path.abspath(__file__)))
 
 CHECKS = {
+ "C02": ("exploration", "5/C02",
+         "Whole-sandbox snapshot before/after each real execution compared with an independent model of cp's mapping rule: every mapped entry present with the same kind, link text and bytes; every unmapped non-source entry byte-for-byte unchanged; nothing new outside mapped paths. Held = no exit-0 run observed deviated.",
+         "Model covers the shapes listed in the evidence rule; inputs the statement leaves undefined (same-basename sources, '.'/'..' sources, kind-changing overwrites) are not generated.",
+         "runtime monitoring: snapshot diff against a reference model"),
+ "C03": ("fault_enumeration", "5/C03",
+         "Enumerated alias relations x drivers x block sizes x supervisor schedules, plus SIGKILL before/after every mutating system call and one injected errno at every sandbox-touching call of recorded baseline traces; oracle compares content hash, lstat, xattrs and link text of every source and bystander entry before and after, whatever the exit status.",
+         "Kill points are system-call boundaries (xcp changes nothing on disk in between); quick samples the enumerated (site x action) list, thorough runs all of it.",
+         "runtime monitoring: ptrace fault/kill injection + before/after snapshot oracle"),
+ "C04": ("fault_enumeration", "5/C04",
+         "Every sandbox-touching system-call site of a recorded baseline trace (walker, dispatcher, workers) x every applicable errno is failed once by the ptrace supervisor; exit 0 is accepted only if the full snapshot comparison (kinds, bytes, link text, modes, mtimes, backup content) passes and no requested fsync was failed. Thorough adds pairs of faults and pct schedules.",
+         "Sites come from baseline traces of the listed trees; a site that does not recur in its faulted run is counted as missed. xattr/ownership/close failures are tolerated by the statement and not injected.",
+         "runtime monitoring: system-call fault enumeration with snapshot oracle"),
  "C01": ("exploration", "5/C01",
          "Snapshot oracle (sha256+length of every destination file vs the source bytes recorded before the run) over seeded real executions of the xcp binary: size x layout x prior destination x driver x workers x block size x reflink x filesystem x schedule. Thorough adds a file larger than one kernel copy request. Held means: no exit-0 run among those observed had a differing file.",
          "Trusts sha256, the kernel's read path and the ptrace supervisor for the scheduled subset. Sampled, not exhaustive: sizes are boundary-biased around the block size, layouts random.",
